@@ -3,6 +3,7 @@
 //! real library, and writes ndjson records that TLC trace specifications evaluate.
 
 mod diffmod;
+mod mdmod;
 mod rulesmod;
 mod util;
 
@@ -14,6 +15,7 @@ fn main() {
         "diff-replay" => diffmod::replay(&args),
         "diff-probe" => diffmod::probe(&args),
         "rules-replay" => rulesmod::replay(&args),
+        "md-replay" => mdmod::replay(&args),
         _ => util::tool_error(&format!("unknown sub-command `{cmd}`")),
     }
 }
